@@ -18,7 +18,7 @@ What the documentation of each method says decides what is demanded of it:
   capacities as (hard) constraints.
 * hints: only adhoc says it "honors so-called 'hints'"; oneagent, ilp_compref, ilp_compref_fg say hints are not
   used; the others accept the argument and say nothing (they pin computations through a hosting cost of 0
-  instead): a must-host hint they do not honour is counted (`hint_not_honoured_undocumented`), not reported.
+  instead): a must-host hint they do not honour is counted (`hint_not_honoured_silent`), not reported.
 * the *_secp_* methods state assumptions on their input (actuator variables have a hosting cost of 0 on their own
   agent, factors named c_<variable>): they only get SECP-shaped problems.
 * DPOP / NCBB declare `computation_memory` / `communication_load` not implemented: a NotImplementedError raised
@@ -258,7 +258,7 @@ def plan(tier):
     P["draws"] = 4 if q else 6  # random() draws answered from the 2-point menu, per call
     P["perm"] = 4 if q else 5  # lists up to this length: every permutation at the first shuffle of a call
     P["generic_shapes"] = [0, 1, 3, 4, 5, 6, 7, 8, 9, 11] if q else list(range(len(GENERIC_SHAPES)))
-    P["secp_shapes"] = [1, 2, 4, 5] if q else list(range(len(SECP_SHAPES)))
+    P["secp_shapes"] = [0, 1, 2, 4, 5] if q else list(range(len(SECP_SHAPES)))
     P["agents"] = [1, 2, 3] if q else [1, 2, 3, 4]
     P["menus"] = {
         # dimensions a method never reads are kept at their default
@@ -274,15 +274,15 @@ def plan(tier):
     }
     # ILP methods: each solver call is a CBC process (~50 ms unloaded)
     if q:
-        P["ilp"] = dict(shapes=[3, 5], agents=[1, 2], caps=["ample", "tight", "below"],
+        P["ilp"] = dict(shapes=[0, 3, 5], agents=[1, 2], caps=["ample", "tight", "below"],
                         hosting=["unset", "d1", "pin"], routes=["unset"], hints=["none"],
                         models={"oilp_cgdp": ["constraints_hypergraph", "factor_graph"],
-                                "ilp_compref": ["constraints_hypergraph"],
+                                "ilp_compref": ["constraints_hypergraph", "pseudotree"],
                                 "ilp_fgdp": ["factor_graph"], "ilp_compref_fg": ["factor_graph"]},
-                        secp_shapes=[2, 5], secp_caps=["ample", "tight", "below"], secp_routes=["unset"],
+                        secp_shapes=[0, 2, 5], secp_caps=["ample", "tight", "below"], secp_routes=["unset"],
                         secp_hints=["none"], secp_default_hosting=[100])
     else:
-        P["ilp"] = dict(shapes=[3, 5, 7, 8, 11], agents=[1, 2, 3], caps=["ample", "fmax", "tight", "below", "bigfirst"],
+        P["ilp"] = dict(shapes=[0, 3, 5, 7, 8, 11], agents=[1, 2, 3], caps=["ample", "fmax", "tight", "below", "bigfirst"],
                         hosting=["unset", "d1", "pin"], routes=["unset", "r3"], hints=["none", "one"],
                         models={m: METHODS[m][0] for m in ("oilp_cgdp", "ilp_compref", "ilp_fgdp", "ilp_compref_fg")},
                         secp_shapes=list(range(len(SECP_SHAPES))), secp_caps=["ample", "fmax", "tight", "below", "bigfirst"],
@@ -452,6 +452,10 @@ def setup():
             pulp.PULP_CBC_CMD.__init__(self, msg=False, timeLimit=timeLimit, mip=bool(mip))
 
         def actualSolve(self, lp, **kwargs):
+            # GLPK_CMD hands the model over as an LP file: writeLP refuses over-long and repeated variable names
+            # (PulpError); CBC's MPS hand-over would instead fail inside the solver process
+            lp.checkLengthVars(100)
+            lp.checkDuplicateVars()
             SOLVES[0] += 1
             return pulp.PULP_CBC_CMD.actualSolve(self, lp, **kwargs)
 
@@ -830,7 +834,8 @@ def run(ctx):
     ctx.assumptions = [
         "No glpsol binary exists here: the name GLPK_CMD in pydcop.distribution.{ilp_fgdp,ilp_compref,ilp_compref_fg,"
         "oilp_cgdp,oilp_secp_cgdp,oilp_secp_fgdp} is rebound, from the harness, to a class accepting GLPK_CMD's arguments "
-        "(keepFiles, msg, options incl. --tmlim) and delegating to pulp.PULP_CBC_CMD(msg=False, timeLimit=tmlim); CBC is "
+        "(keepFiles, msg, options incl. --tmlim), applying the variable-name checks of the LP-file hand-over GLPK_CMD uses "
+        "(PulpError on repeated / over-long names) and delegating to pulp.PULP_CBC_CMD(msg=False, timeLimit=tmlim); CBC is "
         "trusted to solve the model it is given and PuLP to report its status (optimal / infeasible) faithfully.",
         "The random sources of adhoc (shuffle, choice) and heur_comhost / gh_cgdp (random module) are rebound to an "
         "enumerating facade; the bounds on the enumerated answers are those of the rule.",
